@@ -27,7 +27,7 @@ import (
 
 // Actor is one goroutine of a scenario.
 type Actor struct {
-	Kind string `json:"kind"`           // close send encode encodenf encodeelement tokenwriter setdeadline timer peer serve probe
+	Kind string `json:"kind"`           // close send encode encodenf encodeelement tokenwriter setdeadline timer peer serve probe fault
 	API  string `json:"api,omitempty"`  // variant of the entry point (same model kind)
 	Past bool   `json:"past,omitempty"` // setdeadline: a deadline that has already passed
 	Zero bool   `json:"zero,omitempty"` // setdeadline: the zero time (no deadline)
@@ -86,6 +86,9 @@ func (h *watchedConn) Read(b []byte) (int, error) {
 
 func (h *watchedConn) Write(b []byte) (int, error) {
 	h.rig.onWrite()
+	if h.rig.tagWrite(b) {
+		return 0, errWriteFault
+	}
 	return h.Conn.Write(b)
 }
 
@@ -96,7 +99,35 @@ type watchedWriter struct {
 
 func (h watchedWriter) Write(b []byte) (int, error) {
 	h.rig.onWrite()
+	if h.rig.tagWrite(b) {
+		return 0, errWriteFault
+	}
 	return h.w.Write(b)
+}
+
+var errWriteFault = errors.New("harness: the connection refuses the closing tag")
+
+// tagWrite counts what the session hands to the connection once it is
+// established: attempts to write the closing element, and any bytes after the
+// first attempt. It reports whether this write is to be refused.
+func (r *rig) tagWrite(b []byte) bool {
+	if r.s == nil || !r.watch.Load() {
+		return false
+	}
+	isTag := bytes.Equal(b, closeTags[0]) || bytes.Equal(b, closeTags[1])
+	r.wmu.Lock()
+	defer r.wmu.Unlock()
+	if isTag {
+		r.tagAttempts++
+		if r.tagAttempts > 1 {
+			r.bytesAfter += len(b)
+		}
+		return r.fault.Load()
+	}
+	if r.tagAttempts > 0 {
+		r.bytesAfter += len(b)
+	}
+	return false
 }
 
 type plainRW struct {
@@ -125,6 +156,13 @@ type rig struct {
 	peerWG   sync.WaitGroup
 	cancel   context.CancelFunc
 	lockLeft bool // finish: the output lock could not be taken
+
+	// the closing tag at the connection: write attempts (whether or not they
+	// succeed), bytes the session wrote after the first attempt, and the fault:
+	// from now on the connection refuses the closing tag
+	fault        atomic.Bool
+	tagAttempts  int
+	bytesAfter   int
 
 	// connection writes of the session
 	watch        atomic.Bool // ask for the state mutex at every write
@@ -560,6 +598,8 @@ func classify(err error) string {
 		return "ECtxCanceled"
 	case errors.Is(err, os.ErrDeadlineExceeded):
 		return "ETimeout"
+	case errors.Is(err, errWriteFault):
+		return "EWrite"
 	case errors.Is(err, errBoom), err == errWrapEOF:
 		return "EHandler"
 	case errors.As(err, &se):
